@@ -211,7 +211,12 @@ func init() {
 			return m.mutexOp(fr, name, args[0])
 		})
 	}
-	register("(*sync.Mutex).TryLock", retTrue)
+	for _, n := range []string{"(*sync.Mutex).TryLock", "(*sync.RWMutex).TryLock"} {
+		name := n
+		register(name, func(m *Machine, fr *frame, fn *ssa.Function, args []Value) Value {
+			return m.mutexOp(fr, name, args[0])
+		})
+	}
 	register("(*sync.Once).Do", func(m *Machine, fr *frame, fn *ssa.Function, args []Value) Value {
 		p := args[0].(Ptr)
 		st := (*p).(Struct)
@@ -238,10 +243,20 @@ func init() {
 		return m.call(fr, token.NoPos, newFn, nil)
 	})
 	register("(*sync.Pool).Put", nop)
-	register("(*sync.WaitGroup).Add", nop)
-	register("(*sync.WaitGroup).Done", nop)
+	register("(*sync.WaitGroup).Add", func(m *Machine, fr *frame, fn *ssa.Function, args []Value) Value {
+		d, ok := args[1].(T)
+		if !ok || !d.IsConst() {
+			m.unsupported("WaitGroup.Add with a symbolic delta")
+		}
+		m.wgOp(fr, "add", args[0], d.SignedVal())
+		return nil
+	})
+	register("(*sync.WaitGroup).Done", func(m *Machine, fr *frame, fn *ssa.Function, args []Value) Value {
+		m.wgOp(fr, "add", args[0], -1)
+		return nil
+	})
 	register("(*sync.WaitGroup).Wait", func(m *Machine, fr *frame, fn *ssa.Function, args []Value) Value {
-		m.waitAll(fr)
+		m.wgOp(fr, "wait", args[0], 0)
 		return nil
 	})
 
@@ -312,7 +327,7 @@ func init() {
 		}
 		return m.newError(fr, msg)
 	})
-	for _, n := range []string{"fmt.Println", "fmt.Printf", "fmt.Print", "fmt.Fprintf", "fmt.Fprintln", "fmt.Fprint"} {
+	for _, n := range []string{"fmt.Println", "fmt.Printf", "fmt.Print"} {
 		register(n, func(m *Machine, fr *frame, fn *ssa.Function, args []Value) Value {
 			return Tuple{m.F.Const(64, 0), Iface{}}
 		})
